@@ -190,11 +190,9 @@ fn run_e1_property(id: &str, thorough: bool, ev: &mut Evidence, t0: Instant) {
         }
     }
     if thorough && !report::stopped() {
-        // FS2: two full turns from the two opening seeds (first two diagrams of seeds/handmade.txt), Gold to move
-        let fs2 = families::fs_first(&verif_dir().join("seeds"), 2);
-        let o = e1::E1Opts { prop: id, checks, move_number: 2, deadline, chunk: 1, roots_only: false, max_turns: 2 };
-        let mut r = e1::run_family(&fs2, &o);
-        r.family = format!("FS2 two full turns from {}", r.family);
+        let fs2 = families::fs2(&verif_dir().join("seeds"), 2);
+        let o = e1::E1Opts { prop: id, checks, move_number: 3, deadline, chunk: 1, roots_only: false, max_turns: 1 };
+        let r = e1::run_family(&fs2, &o);
         eprintln!("  {} : roots={} states={} transitions={} {:.1}s {}", r.family, r.stats.roots, r.stats.states, r.stats.transitions, r.wall_s, r.note);
         ev.families.push(r);
     }
